@@ -382,10 +382,36 @@ def o_int_marginal(spec, dim, ixs, meth, model=None):
     model = model or M.build_model(spec)
     want = run_method(model, meth, np.array([float(v) for v in ixs]), dim)
     got = run_method(model, meth, np.array([int(v) for v in ixs]), dim)
+    if slow(got) or slow(want):
+        return "slow"
     if isinstance(got, dict) or isinstance(want, dict) or any(not vlib.close(a, b, rel=1e-6, abs_=1e-12) for a, b in zip(got, want)):
         return ({"clause": "int-dtype", "method": meth},
                 "%s(np.array(%r), %d) = %r for integer-typed input but %r for float input" % (meth, [int(v) for v in ixs], dim, got, want))
     return None
+
+
+class Slow(Exception):
+    pass
+
+
+def limited(spec, seconds):
+    """a fresh real model whose pdf gives up (Slow) once `seconds` have passed: one real nquad call cannot be
+    interrupted otherwise; such calls are counted as unjudged, never as violations"""
+    import time
+    model = M.build_model(spec)
+    orig, t_end = model.pdf, time.time() + seconds
+
+    def pdf(x):
+        if time.time() > t_end:
+            raise Slow()
+        return orig(x)
+
+    model.pdf = pdf
+    return model
+
+
+def slow(res):
+    return isinstance(res, dict) and res.get("err") == "Slow"
 
 
 def quad1(f, a, b, pts=None):
@@ -404,15 +430,21 @@ def o_integrals_2d(spec, row, model=None):
     tol = lambda w: 2e-4 + 2e-3 * abs(w)
     out = []
     got = run_method(model, "cdf", [x0, x1])
+    if slow(got):
+        return "slow"
     want = quad1(lambda t: f0(t) * float(M.dim_method(d1, "cdf", x1, t)), 0, x0)
     if isinstance(got, dict) or abs(got[0] - want) > tol(want):
         return ({"clause": "cdf-integral", "method": "cdf"}, "cdf(%r) = %r but the orthant integral of the density is %r" % (row, got, want))
     med = float(M.dim_method(d0, "ppf", 0.5))
     got = run_method(model, "marginal_pdf", np.array([x1]), 1)
+    if slow(got):
+        return "slow"
     want = quad1(lambda t: f0(t) * float(M.dim_method(d1, "pdf", x1, t)), 0, hi0, pts=[med])
     if isinstance(got, dict) or abs(got[0] - want) > tol(want):
         return ({"clause": "marginal-integral", "method": "marginal_pdf"}, "marginal_pdf([%r], 1) = %r but integrating the joint density over variable 0 gives %r" % (x1, got, want))
     got = run_method(model, "marginal_cdf", np.array([x1]), 1)
+    if slow(got):
+        return "slow"
     want = quad1(lambda t: f0(t) * float(M.dim_method(d1, "cdf", x1, t)), 0, hi0, pts=[med])
     if isinstance(got, dict) or abs(got[0] - want) > tol(want):
         return ({"clause": "marginal-integral", "method": "marginal_cdf"}, "marginal_cdf([%r], 1) = %r but integrating the joint density gives %r" % (x1, got, want))
@@ -426,6 +458,8 @@ def o_mass_2d(spec, model=None):
     gs = [float(M.dim_method(d0, "ppf", p)) for p in (0.001, 0.5, 0.999)]
     x1 = max(float(M.dim_method(d1, "ppf", 1 - 1e-7, g if d1["cond"] is not None else None)) for g in gs)
     got = run_method(model, "cdf", [x0, x1])
+    if slow(got):
+        return "slow"
     if isinstance(got, dict) or abs(got[0] - 1) > 2e-3:
         return ({"clause": "mass", "method": "cdf"}, "cdf(%r) = %r: the density does not integrate to one" % ([x0, x1], got))
     return None
@@ -577,7 +611,12 @@ def run(ctx):
     # ---- search
     found = {}
 
+    unjudged = {"slow_nquad": 0}
+
     def report(o, rp):
+        if o == "slow":
+            unjudged["slow_nquad"] += 1
+            return False
         if o is not None:
             key = repr(sorted(o[0].items()))
             if found.get(key, 0) < 2 and ctx.violation(o[0], o[1], rp):
@@ -621,20 +660,20 @@ def run(ctx):
     nreal = ctx.n(3, 25)
     nquad_checked = skipped = 0
     worst_icdf = None
-    report(o_int_marginal(s0, 1, [5, 8], "marginal_pdf"), {"oracle": "int_marginal", "spec": s0, "dim": 1, "xs": [5, 8], "method": "marginal_pdf"})
-    report(o_int_marginal(s0, 1, [5, 8], "marginal_cdf"), {"oracle": "int_marginal", "spec": s0, "dim": 1, "xs": [5, 8], "method": "marginal_cdf"})
+    report(o_int_marginal(s0, 1, [5, 8], "marginal_pdf", limited(s0, 20)), {"oracle": "int_marginal", "spec": s0, "dim": 1, "xs": [5, 8], "method": "marginal_pdf"})
+    report(o_int_marginal(s0, 1, [5, 8], "marginal_cdf", limited(s0, 20)), {"oracle": "int_marginal", "spec": s0, "dim": 1, "xs": [5, 8], "method": "marginal_cdf"})
     for sp in two[:nreal]:
         if not left():
             skipped += 1
             continue
         row = make_rows(rng, sp, 1)[0]
         nquad_checked += 1
-        report(o_integrals_2d(sp, row), {"oracle": "integrals_2d", "spec": sp, "row": row})
+        report(o_integrals_2d(sp, row, limited(sp, ctx.n(12, 60))), {"oracle": "integrals_2d", "spec": sp, "row": row})
     for sp in two[nreal:nreal + ctx.n(1, 6)]:
         if not left():
             skipped += 1
             continue
-        report(o_mass_2d(sp), {"oracle": "mass_2d", "spec": sp})
+        report(o_mass_2d(sp, limited(sp, ctx.n(10, 60))), {"oracle": "mass_2d", "spec": sp})
     for sp in two[-ctx.n(1, 5):]:
         if not left():
             skipped += 1
@@ -643,7 +682,7 @@ def run(ctx):
         o, worst = o_icdf_2d(ctx, sp, seed)
         worst_icdf = worst if worst_icdf is None else max(worst_icdf, worst or 0)
         report(o, {"oracle": "icdf_2d", "spec": sp, "seed": seed})
-    ctx.notes["search"] = {"product_oracle_models": nprod, "int_vs_float_models": nint, "real_nquad_2d_models": nquad_checked, "real_nquad_skipped_for_time": skipped,
+    ctx.notes["search"] = {"product_oracle_models": nprod, "int_vs_float_models": nint, "real_nquad_2d_models": nquad_checked, "real_nquad_skipped_for_time": skipped, "unjudged_slow_nquad_calls": unjudged["slow_nquad"],
                            "marginal_icdf_worst_|F(x_p)-p|": worst_icdf,
                            "3-D real nquad": "not run (one call takes minutes); 3-D/4-D integrands are checked through the probing stub"}
     ctx.cov["rule"] = ("random 2-D/3-D (a few 4-D) hierarchical models over Weibull / log-normal / log-normal(norm-fit) / exponentiated Weibull / "
